@@ -61,5 +61,6 @@ def all_units():
     return out
 
 
-# units on which operators are probed / swept in the quick tier (thorough: all of them)
+# units on which operators (result types, acceptance, value sweeps) are explored; layout facts use all units
+THOROUGH_OPS_LIB = ["seconds", "radians", "fahrenheit", "bytes", "hertz", "miles", "pounds_force", "degrees"]
 QUICK_OPS = ["meters", "unos", "percent", "celsius", "gen.MPS", "gen.Feet3", "gen.KiloM", "gen.MperM"]
